@@ -40,7 +40,7 @@ public:
       A(K_DEC, true, "s--"); A(K_CLEAR, true, "Clear"); A(K_CLEARFLUSH, true, "ClearAndFlush");
       A(K_T_FIX, true, "t=\"a\"", O_NONE, K0, 1, 0); A(K_T_FIX, true, "t=Gen(cap-1)", O_NONE, K0, (int)CAP - 1, 0); A(K_T_FIX, true, "t=String(Gen'(cap+1))", O_NONE, K0, (int)CAP + 1, 1);
       A(K_T_FROM_S, true, "t=s"); A(K_SWAP, true, "SwapContents(t)"); A(K_MOVE, true, "s=move(t)");
-      A(K_ASSIGN_STR, true, "s=s", O_SELF); A(K_ASSIGN_CSTR, true, "s=s()", O_SELF, K0); A(K_ASSIGN_CSTR, true, "s=s()+mid", O_SELF, KMID);
+      A(K_ASSIGN_STR, true, "s=s", O_SELF); A(K_ASSIGN_CSTR, true, "s=s()", O_SELF, K0); A(K_ASSIGN_CSTR, true, "s=s()+mid", O_SELF, KMID); A(K_ASSIGN_CSTR, true, "s=s()+len", O_SELF, KLEN);
       A(K_SETCSTR_N, true, "SetCstr(t(),cap+1)", O_T, K0, PCAP1); A(K_SETCSTR_N, true, "SetCstr(s(),cap)", O_SELF, K0, PCAP); A(K_SETCSTR_N, true, "SetCstr(s()+1,cap-1)", O_SELF, K1, PCAPM1);
       A(K_SETFROM, true, "SetFromString(t,1,cap+1)", O_T, K0, P1, PCAP1); A(K_SETFROM, true, "SetFromString(s,1)", O_SELF, K0, P1, PNL); A(K_SETFROM, true, "SetFromString(s,0,cap)", O_SELF, K0, P0, PCAP); A(K_SETFROM, true, "SetFromString(s,len)", O_SELF, K0, PLEN, PNL);
       A(K_ASSIGN_SUBSTR, true, "s=s.Substring(1,cap+1)", O_NONE, K0, P1, PCAP1);
@@ -89,8 +89,9 @@ public:
       for (size_t i = 0; i < 5; i++) { Start a = { Gen(lens[i], 0), "", true }; ss.push_back(a); }                  // lengths <= cap forced into a 17-byte heap block
       { Start a = { Gen(CAP - 1, 1), "", false }; ss.push_back(a); } { Start a = { Gen(CAP + 1, 1), "", false }; ss.push_back(a); }   // second byte pattern: leading/trailing blanks, upper case
       std::vector<Str> ts; ts.push_back("a"); ts.push_back(Gen(CAP - 2, 0)); ts.push_back(""); ts.push_back("%1"); ts.push_back(Gen(CAP + 1, 0));
-      const size_t nt = thorough ? ts.size() : 3;   // thorough adds operand values; the quick start set is a subset
-      for (size_t i = 0; i < ss.size(); i++) for (size_t j = 0; j < nt; j++) { Start a = ss[i]; a.t = ts[j]; starts.push_back(a); }
+      // the quick start set (first three operand values) is a PREFIX of the thorough one, so that a start index in a replay file means the same in both tiers
+      for (size_t i = 0; i < ss.size(); i++) for (size_t j = 0; j < 3; j++) { Start a = ss[i]; a.t = ts[j]; starts.push_back(a); }
+      if (thorough) for (size_t i = 0; i < ss.size(); i++) for (size_t j = 3; j < ts.size(); j++) { Start a = ss[i]; a.t = ts[j]; starts.push_back(a); }
    }
    int NumStarts() const { return (int)starts.size(); }
    std::string StartName(int i) const { return "s=" + Esc(starts[i].s) + (starts[i].heap ? " heap" : " natural") + " t=" + Esc(starts[i].t); }
@@ -139,7 +140,7 @@ public:
 #define C17_PRE (" [before: s=" + Esc(s0) + verif::Fmt(" %s/%u", sHeap ? "heap" : "inline", sAlloc) + ", t=" + Esc(t0) + verif::Fmt(" %s/%u", tHeap ? "heap" : "inline", tAlloc) + "]")
 #define C17_FAIL(k, text) do { msg = o.name + ": " + (text) + C17_PRE; key = (k); return seqx::SEQX_VIOLATION; } while (0)
 
-      if (o.k == K_SHRINK && n + (uint32)o.p1 >= CAP - 1 && n <= CAP) { Str what; if (DiesInChild(o, s0, t0, what)) C17_FAIL("fatal:" + what + ":" + o.name + "(heap,len=" + std::to_string(n) + ")", "process death (" + what + "; 88=UBSan, 87=ASan) when applied to a heap-allocated String with these bytes"); }
+      if (o.k == K_SHRINK && n == CAP) { Str what; if (DiesInChild(o, s0, t0, what)) C17_FAIL("fatal:" + what + ":" + o.name + "(heap,len=" + std::to_string(n) + ")", "process death (" + what + "; 88=UBSan, 87=ASan) when applied to a heap-allocated String with these bytes"); }
 
       // ---- primary execution on the objects with their history-given storage
       Out po; RunBound(o, w.s, w.t, po);
@@ -244,7 +245,7 @@ int main(int argc, char ** argv)
    const bool thorough = args.Thorough();
    int depth = thorough ? 4 : 3;
    if (args.kv.count("depth")) depth = atoi(args.kv["depth"].c_str());
-   StringModel model; model.BuildStarts(thorough || args.kv.count("allstarts"));
+   StringModel model; model.BuildStarts(thorough || args.kv.count("allstarts") || !args.replay.empty());
    seqx::Explorer<StringModel> ex(model, args, res, "string-vs-bytestring");
    if (!args.replay.empty()) { verif::ReplayDoc d; if (!d.Load(args.replay)) { fprintf(stderr, "cannot read %s\n", args.replay.c_str()); return 3; } return ex.ReplayFile(d); }
    if (args.kv.count("profile")) {   // development aid: cost of each operation as the last step, single process
